@@ -687,7 +687,7 @@ func genC12(g *Gen) {
 	}
 
 	// (3) ToArray, Of(ToArray), Get/Get1, SafeGet/SafeGet1
-	nt := g.N(500, 12000)
+	nt := g.N(350, 12000)
 	for k := 0; k < nt; k++ {
 		nw := g.R.Range(0, 12)
 		if g.R.Intn(4) == 0 {
@@ -864,7 +864,7 @@ func genC12(g *Gen) {
 
 	// (8) widening: queries on built bitmaps. Of(ps, n) then Rank64 / Rank128 / NextOne / PrevOne; the same on the
 	// Words of a Builder history. The number of bits is computed here from the statement (not from the result).
-	nq := g.N(1500, 40000)
+	nq := g.N(1000, 40000)
 	for k := 0; k < nq; k++ {
 		style := g.R.Intn(5)
 		ps := c12Positions(g, style, g.R.Pick(70, 200, 700, 2500), g.R.Pick(1, 3, 10, 40))
@@ -889,7 +889,7 @@ func genC12(g *Gen) {
 		g.Stat("of-query")
 		g.Do("bitmap.Of/query", L(I32s(ps), o, B(g.R.Bool()), Int(i), Int(e)), key)
 	}
-	for k := 0; k < g.N(800, 20000); k++ {
+	for k := 0; k < g.N(500, 20000); k++ {
 		n, ops, mode, fs, lim, all := c12History(g)
 		if lim <= 0 {
 			continue
@@ -940,7 +940,7 @@ func genC12(g *Gen) {
 	}
 	// (9b) overhang aimed at REVISITED words: small sizes (1..40) with positions 64..200 far past the size, followed by
 	// segments with small positions that fall back into words the overhang (or an earlier segment) already touched
-	for k := 0; k < g.N(1200, 30000); k++ {
+	for k := 0; k < g.N(800, 30000); k++ {
 		nseg := g.R.Range(2, 5)
 		subs := make([][]int32, nseg)
 		sizes := make([]int32, nseg)
